@@ -13,7 +13,8 @@
        [k |-> "filter", e |-> expr]        applies to the whole group (18.2.2.2)
        [k |-> "opt", g |-> group]          LeftJoin with the group so far; a filter directly inside g is the join condition
        [k |-> "union", a |-> group, b |-> group]
-   expr: [f |-> "eq"|"ne"|"lt"|"gt", v |-> name, c |-> term] | [f |-> "bound"|"nbound", v |-> name]          *)
+   expr: [f |-> "eq"|"ne"|"lt"|"gt", v |-> name, c |-> term] | [f |-> "bound"|"nbound", v |-> name]
+         | [f |-> "and"|"or", a |-> expr, b |-> expr] | [f |-> "not", a |-> expr]                                *)
 EXTENDS Naturals, Integers, Sequences, FiniteSets, TLC
 Rng(s) == {s[i] : i \in DOMAIN s}
 IsVar(t) == "v" \in DOMAIN t
@@ -34,14 +35,28 @@ MatchTP(D, tp) ==        \* a set of mappings (D is a set, so each mapping once)
   { m \in UNION {[VarsOf(tp) -> {tr[1], tr[2], tr[3]}] : tr \in D} : \E tr \in D : Binds(tp, tr, m) }
 Join(A, B) == FlatSeq([i \in DOMAIN A |-> LET ms == SelectSeq(B, LAMBDA b : Compatible(A[i], b)) IN [j \in DOMAIN ms |-> Merge(A[i], ms[j])]], 1)
 \* ---- filters: an error (unbound variable, comparison of non-numbers with < >) is false
-Holds(e, m) ==
+\* three-valued evaluation (SPARQL 17.2): "t", "f" or "e" (error: unbound variable, ordering of non-numbers).
+\* A || B is true if either is true, an error if neither is true and one is an error; A && B dually; !error = error.
+RECURSIVE Ev3(_, _)
+Atom3(e, m) ==
+  CASE e.f = "bound" -> IF e.v \in DOMAIN m THEN "t" ELSE "f"
+    [] e.f = "nbound" -> IF e.v \notin DOMAIN m THEN "t" ELSE "f"
+    [] e.f \in {"eq", "ne"} -> IF e.v \notin DOMAIN m THEN "e" ELSE IF (m[e.v] = e.c) = (e.f = "eq") THEN "t" ELSE "f"
+    [] e.f \in {"lt", "gt"} -> IF e.v \notin DOMAIN m \/ m[e.v] \notin 31..39 \/ e.c \notin 31..39 THEN "e"
+                               ELSE IF (IF e.f = "lt" THEN m[e.v] < e.c ELSE m[e.v] > e.c) THEN "t" ELSE "f"
+Ev3(e, m) ==
+  CASE e.f = "or" -> LET a == Ev3(e.a, m)  b == Ev3(e.b, m) IN IF a = "t" \/ b = "t" THEN "t" ELSE IF a = "e" \/ b = "e" THEN "e" ELSE "f"
+    [] e.f = "and" -> LET a == Ev3(e.a, m)  b == Ev3(e.b, m) IN IF a = "f" \/ b = "f" THEN "f" ELSE IF a = "e" \/ b = "e" THEN "e" ELSE "t"
+    [] e.f = "not" -> LET a == Ev3(e.a, m) IN IF a = "t" THEN "f" ELSE IF a = "f" THEN "t" ELSE "e"
+    [] OTHER -> Atom3(e, m)
+HoldsOld(e, m) ==
   CASE e.f = "bound" -> e.v \in DOMAIN m
     [] e.f = "nbound" -> e.v \notin DOMAIN m
     [] e.f = "eq" -> e.v \in DOMAIN m /\ m[e.v] = e.c
     [] e.f = "ne" -> e.v \in DOMAIN m /\ m[e.v] # e.c
     [] e.f = "lt" -> e.v \in DOMAIN m /\ m[e.v] \in 31..39 /\ e.c \in 31..39 /\ m[e.v] < e.c
     [] e.f = "gt" -> e.v \in DOMAIN m /\ m[e.v] \in 31..39 /\ e.c \in 31..39 /\ m[e.v] > e.c
-AllHold(fs, m) == \A i \in DOMAIN fs : Holds(fs[i], m)
+AllHold(fs, m) == \A i \in DOMAIN fs : Ev3(fs[i], m) = "t"
 LeftJoin(A, B, fs) ==
   FlatSeq([i \in DOMAIN A |->
              LET ms == SelectSeq(B, LAMBDA b : Compatible(A[i], b) /\ AllHold(fs, Merge(A[i], b)))
@@ -77,9 +92,17 @@ OrderedOk(q, exp0, rows) ==
      /\ \A i \in 1..(Len(rows) - 1) : ~before(rows[i + 1], rows[i])
      /\ SubBag(br, be)
      /\ (rows # <<>> => \A r \in DOMAIN be : (IF r \in DOMAIN br THEN be[r] > br[r] ELSE TRUE) => ~before(r, rows[Len(rows)]))
+\* SELECT ?g (COUNT( * ) AS ?c) ... GROUP BY ?g  (?g bound in every solution): one row per value of ?g with its count
+GroupOk(D, q, rows) ==
+  LET sols == EvalGroup(D, q.where)
+      keys == {sols[i][q.group] : i \in DOMAIN sols}
+  IN /\ Len(rows) = Cardinality(keys)
+     /\ {rows[i][1] : i \in DOMAIN rows} = keys
+     /\ \A i \in DOMAIN rows : rows[i][2] = Cardinality({j \in DOMAIN sols : sols[j][q.group] = rows[i][1]})
 Agrees(D, q, rows) ==
   LET exp == Rows(D, q) IN
-  IF HasOrder(q) THEN OrderedOk(q, exp, rows)
+  IF "group" \in DOMAIN q THEN GroupOk(D, q, rows)
+  ELSE IF HasOrder(q) THEN OrderedOk(q, exp, rows)
   ELSE IF q.count THEN rows = << <<Len(exp)>> >>
   ELSE IF q.distinct
        THEN (IF q.limit < 0 THEN Rng(rows) = Rng(exp) /\ Len(rows) = Cardinality(Rng(exp))
